@@ -281,6 +281,7 @@ where
             std::thread::Builder::new()
                 .stack_size(16 << 20)
                 .spawn_scoped(s, move || {
+                    set_current_lane(lane);
                     let mut rep = Report::new();
                     loop {
                         let i = next.fetch_add(1, Ordering::SeqCst);
@@ -312,4 +313,81 @@ where
 
 pub fn case_rng(seed: u64, lane: &str, i: u64) -> Rng {
     Rng::new(mix(&[seed, crate::prng::fnv(lane.as_bytes()), i]))
+}
+
+// ---------------- busy-loop monitor ----------------
+//
+// A driver that spins without ever yielding blocks its (current-thread) runtime, so the
+// virtual-time watchdog can never fire. A monitor thread samples the driver's own loop
+// counter (hook H3) from outside; a connection that is old in wall-clock terms and still
+// iterating millions of times per second is a livelock, reported as a violation through a
+// minimal lane report (the process cannot be resumed).
+
+use std::sync::OnceLock;
+
+struct Watched {
+    gauges: Arc<ldap3::VerifGauges>,
+    since: Instant,
+    last_iters: u64,
+    lane: String,
+}
+
+static WATCH: OnceLock<Mutex<Vec<(std::thread::ThreadId, Watched)>>> = OnceLock::new();
+thread_local! {
+    static CUR_LANE: RefCell<String> = RefCell::new(String::new());
+}
+
+pub fn set_current_lane(l: &str) {
+    CUR_LANE.with(|c| *c.borrow_mut() = l.to_string());
+}
+
+/// Register the connection this thread is currently driving (replaces the previous one).
+pub fn watch_connection(gauges: Arc<ldap3::VerifGauges>) {
+    let w = WATCH.get_or_init(|| Mutex::new(Vec::new()));
+    let tid = std::thread::current().id();
+    let lane = CUR_LANE.with(|c| c.borrow().clone());
+    let mut v = w.lock().unwrap_or_else(|e| e.into_inner());
+    v.retain(|(t, _)| *t != tid);
+    v.push((tid, Watched { gauges, since: Instant::now(), last_iters: 0, lane }));
+}
+
+/// Start the monitor. On a livelock it writes a one-lane report to `out` and exits the process.
+pub fn start_spin_monitor(out: Option<String>, property: String, tier: String, seed: u64) {
+    std::thread::spawn(move || loop {
+        std::thread::sleep(Duration::from_millis(1000));
+        let w = match WATCH.get() {
+            Some(w) => w,
+            None => continue,
+        };
+        let mut hit: Option<(String, u64, u64)> = None;
+        {
+            let mut v = w.lock().unwrap_or_else(|e| e.into_inner());
+            for (_, x) in v.iter_mut() {
+                let it = x.gauges.loop_iters.load(Ordering::SeqCst);
+                let delta = it.saturating_sub(x.last_iters);
+                x.last_iters = it;
+                if x.since.elapsed() > Duration::from_secs(20) && delta > 3_000_000 {
+                    hit = Some((x.lane.clone(), it, delta));
+                }
+            }
+        }
+        if let Some((lane, it, delta)) = hit {
+            let doc = json!({
+                "property_id": property, "tier": tier, "seed": seed, "wall_s": 0.0,
+                "lanes": [{
+                    "lane": format!("{}(spin-monitor)", lane), "evaluations": 1, "distinct_nontrivial": 0, "samples": [], "counters": {"driver_loop_iterations": it},
+                    "violations": [{"signature": "driver-busy-loop:connection-driver-spins-without-yielding", "detail": format!("lane {}: a connection driver has been running for more than 20 s of wall-clock time and executed {} loop iterations in the last second ({} in total) without ever yielding to the runtime: its tasks can never complete", lane, delta, it), "replay": {"lane": lane}, "count": 1}],
+                    "inconclusive": 0, "inconclusive_notes": [], "harness_errors": [], "exhaustive": []
+                }]
+            });
+            let text = serde_json::to_string_pretty(&doc).unwrap_or_default();
+            match &out {
+                Some(p) => {
+                    let _ = std::fs::write(p, text);
+                }
+                None => println!("{}", text),
+            }
+            std::process::exit(0);
+        }
+    });
 }
